@@ -288,7 +288,7 @@ def judge_spectrum(inp, obs, lr):
 def gen_fix(rng, n):
     for _ in range(n):
         dim = rng.choice([2, 2, 3, 4])
-        kind = rng.choice(["rot", "lox", "lox", "par", "refl_lox"])
+        kind = rng.choice(["rot", "lox", "lox", "par", "refl_lox", "refl", "two_refl", "id"])
         g = G.rat_iso(rng, dim)
         L = std_iso(rng, dim, kind)
         M = G.matmulF(G.matmulF(G.invF(g), L), g)
@@ -406,8 +406,9 @@ def judge_fix(inp, obs, lr):
         or compare(obs["pair"][1], model[1], "fixed_point_pair[1]")
     if r:
         return r
-    if inp["kind"] in ("rot", "par") and not inball(model[0]):
-        return {"expected": "elliptic / parabolic: the first eigen-direction lies in the closed ball", "observed": obs["norm_re"],
+    if not inball(model[0]):
+        # every isometry fixes a point of the closed ball
+        return {"expected": "the first eigen-direction lies in the closed ball", "observed": obs["norm_re"],
                 "tags": dict(tags, what="in ball"), "property_failure": True}
     if "axis" in obs:
         ax = np.array(obs["axis"])
@@ -437,20 +438,62 @@ def gen_o_reflect(rng, n):
             ds = [x for x in ds if G.mink(np.array(x), np.array(x)) > 0.2]
             if len(ds) < dim + 1:
                 shape, ds = [], [[0.1, 1.0, 0.3] + [0.0] * (dim - 2)]
-        ipack = None
+        if rng.random() < 0.15:
+            # G12: the normal is a homogeneous vector: any overall size
+            ds = [(np.array(x) * 10 ** rng.uniform(-9, 9)).tolist() for x in ds]
+        rho = None
         if rng.random() < 0.25:
+            # G12: walls at hyperbolic distance rho from the centre: normal (sinh rho, cosh rho u); the reflection matrix has
+            # entries of size e^(2 rho) / 2.  Up to 4.4 everything must work; from 4.7 on from_reflection's absolute
+            # eigenvalue threshold starts to reject the reflection (known finding, tagged far_wall)
+            rho = rng.uniform(2.0, 4.4) if rng.random() < 0.6 else rng.uniform(4.7, 9.0)
+            ds = []
+            for _ in range(int(np.prod(shape)) if shape else 1):
+                u = np.array([rng.gauss(0, 1) for _ in range(dim)])
+                u = u / np.linalg.norm(u)
+                ds.append(([math.sinh(rho)] + (math.cosh(rho) * u).tolist()))
+        ipack = None
+        if rho is None and rng.random() < 0.25:
             # integral normals in every packaging of the data (integer arrays, nested lists of ints, float32)
             ds = [[float(x) for x in G.int_spacelike(rng, dim)] for _ in ds]
             ipack = rng.choice(G.DATA_PACKS)
+        # G13: the normals handed over as OBJECTS (DualPoint, Point, HyperbolicObject, Hyperplane, lists of objects, the
+        # spacelike complement of a Subspace) or as nested tuples / lists, single and composite
+        opack = None
+        if ipack is None and rng.random() < 0.4:
+            opack = rng.choice(["DualPoint", "list_DualPoint", "Hyperplane", "list_Hyperplane", "Point", "HyperbolicObject",
+                                "complement", "tuple", "list"])
+            if opack.startswith("list_") and len(shape) != 1:
+                opack = opack[5:]
         yield {"dim": dim, "shape": shape, "d": ds, "w": [rng.gauss(0, 1) for _ in range(dim + 1)],
-               "normals_only": rng.random() < 0.7, "ipack": ipack}
+               "normals_only": rng.random() < 0.7, "ipack": ipack, "opack": opack, "rho": rho}
 
 
 def run_o_reflect(inp):
     dim, shape = inp["dim"], tuple(inp["shape"])
     d = np.array(inp["d"]).reshape(shape + (dim + 1,))
     arg = G.pack_data(d, inp["ipack"]) if inp.get("ipack") else d.copy()
-    Hp = H.Hyperplane(arg, normals_only=True) if inp.get("normals_only") else H.Hyperplane(arg)
+    op = inp.get("opack")
+    kw = {"normals_only": True} if inp.get("normals_only") else {}
+    if op == "DualPoint":
+        arg = H.DualPoint(d.copy())
+    elif op == "list_DualPoint":
+        arg = [H.DualPoint(x.copy()) for x in d]
+    elif op in ("Hyperplane", "list_Hyperplane"):
+        # an existing hyperplane (array of hyperplanes) is its own data: no keyword
+        arg = H.Hyperplane(d.copy(), normals_only=True) if op == "Hyperplane" else [H.Hyperplane(x.copy()) for x in d]
+        kw = {}
+    elif op == "Point":
+        arg = H.Point(d.copy())
+    elif op == "HyperbolicObject":
+        arg = H.HyperbolicObject(d.copy())
+    elif op == "complement":
+        arg = H.Subspace(np.array(H.Hyperplane(d.copy(), normals_only=True).ideal_basis, dtype=float).copy()).spacelike_complement()
+    elif op == "tuple":
+        arg = tuple(map(tuple, d.tolist())) if d.ndim == 2 else (tuple(d.tolist()) if d.ndim == 1 else d.tolist())
+    elif op == "list":
+        arg = d.tolist()
+    Hp = H.Hyperplane(arg, **kw)
     out = {"shape_ok": list(Hp.shape) == list(shape)}
     if not out["shape_ok"]:
         out["shape"] = list(Hp.proj_data.shape)
@@ -458,28 +501,35 @@ def run_o_reflect(inp):
     R = np.array(Hp.reflection_across().proj_data, dtype=float)
     Jm = G.J(dim)
     eye = np.eye(dim + 1)
-    out["invol"] = float(np.abs(R @ R - eye).max())
-    out["form"] = float(np.abs(R @ Jm @ np.swapaxes(R, -1, -2) - Jm).max())
+    sc = max(1.0, float(np.abs(R).max())) ** 2      # residuals relative to the size of the products formed
+    out["invol"] = float(np.abs(R @ R - eye).max()) / sc
+    out["form"] = float(np.abs(R @ Jm @ np.swapaxes(R, -1, -2) - Jm).max()) / sc
     out["det"] = np.linalg.det(R).reshape(-1).tolist()
+    out["det_tol"] = min(0.5, 1e-9 * sc ** ((dim + 1) / 2))       # a determinant is a sum of products of dim+1 entries
     dn = d / np.sqrt(G.mink(d, d))[..., None]
-    out["normal"] = float(np.abs(np.einsum("...i,...ij->...j", dn, R) + dn).max())
+    out["normal"] = float(np.abs(np.einsum("...i,...ij->...j", dn, R) + dn).max() / (np.abs(dn).max() * math.sqrt(sc)))
     ib = np.array(Hp.ideal_basis, dtype=float)
-    out["ideal_null"] = float(np.abs(np.einsum("...ki,ij,...kj->...k", ib, Jm, ib)).max())
-    out["ideal_fixed"] = float(np.abs(ib @ R - ib).max())
+    out["ideal_null"] = float((np.abs(np.einsum("...ki,ij,...kj->...k", ib, Jm, ib)) / np.maximum(1.0, np.einsum("...ki,...ki->...k", ib, ib))).max())
+    out["ideal_fixed"] = float(np.abs(ib @ R - ib).max() / (max(1.0, np.abs(ib).max()) * math.sqrt(sc)))
     # a random point of the wall: project w off the normal
     w = np.array(inp["w"])
     wp = w - G.mink(np.broadcast_to(w, dn.shape), dn)[..., None] * dn
-    out["wall_fixed"] = float(np.abs(np.einsum("...i,...ij->...j", wp, R) - wp).max())
-    H2 = H.Hyperplane.from_reflection(H.Isometry(R.copy()))
+    out["wall_fixed"] = float(np.abs(np.einsum("...i,...ij->...j", wp, R) - wp).max() / (max(1.0, np.abs(wp).max()) * math.sqrt(sc)))
+    try:
+        H2 = H.Hyperplane.from_reflection(H.Isometry(R.copy()))
+    except GeometryError as e:
+        out["rt_rejected"] = str(e)[:80]
+        return out
     n2 = np.array(H2.spacelike_vector, dtype=float)
     out["rt_shape"] = list(n2.shape) == list(dn.shape)
     if out["rt_shape"]:
         out["rt_normal"] = float(np.minimum(np.abs(n2 - dn).max(-1), np.abs(n2 + dn).max(-1)).max())
         ib2 = np.array(H2.ideal_basis, dtype=float)
-        out["rt_ideal"] = float(max(np.abs(np.einsum("...ki,ij,...kj->...k", ib2, Jm, ib2)).max(),
-                                    np.abs(np.einsum("...ki,ij,...j->...k", ib2, Jm, dn)).max()))
+        nb2 = np.maximum(1.0, np.einsum("...ki,...ki->...k", ib2, ib2))
+        out["rt_ideal"] = float(max((np.abs(np.einsum("...ki,ij,...kj->...k", ib2, Jm, ib2)) / nb2).max(),
+                                    (np.abs(np.einsum("...ki,ij,...j->...k", ib2, Jm, dn)) / np.sqrt(nb2) / np.linalg.norm(dn, axis=-1)[..., None]).max()))
         R2 = np.array(H2.reflection_across().proj_data, dtype=float)
-        out["rt_refl"] = float(np.abs(R2 - R).max())
+        out["rt_refl"] = float(np.abs(R2 - R).max() / math.sqrt(sc))
         if dim == 2:
             g = H.Geodesic.from_reflection(H.Isometry(R.copy()))
             e = np.array(g.endpoints, dtype=float)
@@ -491,9 +541,11 @@ def run_o_reflect(inp):
 def judge_o_reflect(inp, obs, lr):
     cnt = int(np.prod(inp["shape"])) if inp["shape"] else 1
     # without the keyword an array of exactly n+1 normals is (documented) read as one hyperplane's data
-    square = bool(inp["shape"]) and inp["shape"][-1] == inp["dim"] + 1 and not inp.get("normals_only")
+    square = bool(inp["shape"]) and inp["shape"][-1] == inp["dim"] + 1 and not inp.get("normals_only") \
+        and inp.get("opack") not in ("Hyperplane", "list_Hyperplane")
     tags = {"composite": bool(inp["shape"]), "dim": inp["dim"], "square_shape": square, "call_site": "Hyperplane.__init__",
-            "normals_only": bool(inp.get("normals_only")), "data_pack": inp.get("ipack") or "float64"}
+            "normals_only": bool(inp.get("normals_only")), "data_pack": inp.get("opack") or inp.get("ipack") or "float64",
+            "far_wall": bool(inp.get("rho") and inp["rho"] > 4.6)}
     if "exc" in obs:
         return {"expected": "hyperplane(s) and reflection(s)", "observed": obs, "tags": dict(tags, exc=obs["exc"])}
     if not obs["shape_ok"]:
@@ -502,14 +554,17 @@ def judge_o_reflect(inp, obs, lr):
     t = 1e-8 * f
     if not (obs["invol"] <= t and obs["form"] <= t):
         return {"expected": "involutive isometry", "observed": obs, "tags": dict(tags, what="involution")}
-    if not all(abs(x + 1) <= 1e-8 * f for x in obs["det"]):
+    if not all(abs(x + 1) <= max(1e-8 * f, obs.get("det_tol", 0.0)) for x in obs["det"]):
         return {"expected": "orientation reversing (det -1)", "observed": obs["det"], "tags": dict(tags, what="det")}
     if not obs["normal"] <= t:
         return {"expected": "normal negated", "observed": obs["normal"], "tags": dict(tags, what="normal")}
     if not (obs["ideal_null"] <= 1e-7 * f and obs["ideal_fixed"] <= 1e-7 * f and obs["wall_fixed"] <= 1e-7 * f):
         return {"expected": "wall fixed pointwise", "observed": obs, "tags": dict(tags, what="wall")}
+    if "rt_rejected" in obs:
+        return {"expected": "from_reflection(reflection_across(H)) = H", "observed": {"GeometryError": obs["rt_rejected"]},
+                "tags": dict(tags, what="roundtrip rejected", call_site="Hyperplane.from_reflection")}
     if not (obs["rt_shape"] and obs["rt_normal"] <= 1e-7 * f and obs["rt_ideal"] <= 1e-7 * f and obs["rt_refl"] <= 1e-7 * f and obs.get("geo", 0) <= 1e-7 * f):
-        return {"expected": "from_reflection(reflection_across(H)) = H", "observed": obs, "tags": dict(tags, what="roundtrip")}
+        return {"expected": "from_reflection(reflection_across(H)) = H", "observed": obs, "tags": dict(tags, what="roundtrip", call_site="Hyperplane.from_reflection")}
     return None
 
 
@@ -631,10 +686,14 @@ def judge_o_nonrefl(inp, obs, lr):
 def gen_o_fixed(rng, n):
     for _ in range(n):
         dim = rng.choice([2, 2, 3, 4])
-        kind = rng.choice(["rot", "lox", "lox", "par", "screw"] if dim >= 3 else ["rot", "lox", "lox", "par"])
+        # reflections, half-turns and the identity: real spectrum with an exactly repeated eigenvalue, whose eigenspace
+        # contains points of the closed ball although a basis returned by eig need not
+        kind = rng.choice(["rot", "lox", "lox", "par", "screw", "refl", "refl", "refl_rot", "half_turn", "id"] if dim >= 3
+                          else ["rot", "lox", "lox", "par", "refl", "refl", "half_turn", "id"])
         # both projective representatives +-M of the isometry, negative parameters of the standard_* constructors
         yield {"dim": dim, "kind": kind, "g": G.float_iso(rng, dim).tolist(), "a": rng.uniform(0.3, 2.8) * rng.choice([-1, 1]),
-               "t": rng.uniform(0.3, 3.0) * rng.choice([-1, 1]), "col": rng.random() < 0.3,
+               # G12: now and then a long translation (multiplier up to e^12)
+               "t": (rng.uniform(3.0, 12.0) if rng.random() < 0.15 else rng.uniform(0.3, 3.0)) * rng.choice([-1, 1]), "col": rng.random() < 0.3,
                "sign": rng.choice([1, 1, -1]), "neg_param": rng.random() < 0.3}
 
 
@@ -1129,7 +1188,8 @@ def gen_o_coxeter(rng, n):
     for i in range(n):
         tri = TRIANGLES[i % len(TRIANGLES)]
         word = "".join(rng.choice("abc") for _ in range(rng.randint(0, 5)))
-        yield {"tri": list(tri), "gen": rng.choice("abc"), "word": word}
+        yield {"tri": list(tri), "gen": rng.choice("abc"), "word": word, "gen2": rng.choice(["ab", "bc", "ac", "ba", "ca", "cb"]),
+               "word2": "".join(rng.choice("abc") for _ in range(rng.randint(1, 7)))}
 
 
 def run_o_coxeter(inp):
@@ -1148,6 +1208,31 @@ def run_o_coxeter(inp):
     g = H.Geodesic.from_reflection(H.Isometry(M.copy()))
     e = np.array(g.endpoints, dtype=float)
     out["wall"] = float(np.abs(e @ M - e).max() / max(1.0, np.abs(e).max()))
+    # fixed points of group elements: the conjugated generator (a reflection: eigenvalue 1 exactly repeated), a conjugated
+    # product of two generators (a rotation of exact finite order, or a half-turn with eigenvalue -1 repeated) and a word;
+    # every isometry fixes a point of the closed ball, and fixed_point() must return one.  Then the three together as ONE
+    # composite isometry of mixed kinds (G16): member i answers like the single isometry.
+    g2 = inp.get("gen2") or "ab"
+    words = [conj, w + g2 + w[::-1], inp.get("word2") or (w + g2 + inp["gen"])]
+    fps = []
+    for wd in words:
+        Mi = np.array(rep.isometries([wd]).proj_data, dtype=float)[0]
+        v = np.array(H.Isometry(Mi.copy()).fixed_point().proj_data, dtype=float)
+        v = v / np.linalg.norm(v)
+        wv = v @ Mi
+        fps.append({"word": wd, "cross": float(np.abs(np.outer(wv, v) - np.outer(v, wv)).max()), "norm": float(G.mink(v, v)),
+                    "scale": float(np.abs(Mi).max()), "v": v.tolist()})
+    out["fps"] = fps
+    comp = np.array(rep.isometries(words).fixed_point().proj_data, dtype=float)
+    out["comp_shape"] = list(comp.shape)
+    if list(comp.shape) == [3, 3]:
+        res = []
+        for v, wd in zip(comp, words):
+            Mi = np.array(rep.isometries([wd]).proj_data, dtype=float)[0]
+            v = v / np.linalg.norm(v)
+            wv = v @ Mi
+            res.append([float(np.abs(np.outer(wv, v) - np.outer(v, wv)).max()), float(G.mink(v, v))])
+        out["comp"] = res
     # all generators taken together (a composite of exactly dim+1 reflections)
     gens = rep.isometries(["a", "b", "c"])
     Gm = np.array(gens.proj_data, dtype=float)
@@ -1168,6 +1253,14 @@ def judge_o_coxeter(inp, obs, lr):
         return {"expected": "involutive orientation-reversing isometry", "observed": obs, "tags": dict(tags, what="reflection")}
     if not (obs["rt"] <= 1e-6 * s and obs["wall"] <= 1e-6 * s):
         return {"expected": "reflection_across(from_reflection(R)) = R, wall fixed", "observed": obs, "tags": dict(tags, what="roundtrip")}
+    for k, fpi in enumerate(obs["fps"]):
+        s2 = max(1.0, fpi["scale"]) ** 2
+        if not (fpi["cross"] <= 1e-7 * s2 and fpi["norm"] <= 1e-7 * s2):
+            return {"expected": "fixed_point() of a group element: fixed, in the closed ball", "observed": fpi,
+                    "tags": dict(tags, what="fixed point", element=["reflection", "product of two generators", "word"][k])}
+        if obs["comp_shape"] != [3, 3] or not (obs["comp"][k][0] <= 1e-7 * s2 and obs["comp"][k][1] <= 1e-7 * s2):
+            return {"expected": "the same for the three elements as one composite isometry", "observed": [obs["comp_shape"], obs.get("comp")],
+                    "tags": dict(tags, what="composite fixed points", member=k)}
     if obs["gens_shape"] != [3, 3] or not obs["gens_rt"] <= 1e-6:
         return {"expected": "the three generators together: three hyperplanes, round trip", "observed": obs, "tags": dict(tags, what="generators together")}
     return None
